@@ -128,18 +128,24 @@ func c16DryRun(t *testing.T, a *chain.App, ctx sdk.Context, e *c15Env, m sdk.Msg
 	if h == nil {
 		return
 	}
+	c16DryRunDo(t, a, ctx, e, m.GetSigners(), func(c sdk.Context) { _, _ = h(c, m) }, n)
+}
+
+// the same for any action (a message through the router, a governance proposal handler, a contract
+// binding): do runs on dropped branches only
+func c16DryRunDo(t *testing.T, a *chain.App, ctx sdk.Context, e *c15Env, signers []sdk.AccAddress, do func(c sdk.Context), n int) {
 	// on the dropped branches the signer can afford anything
 	rich := func(c sdk.Context) {
-		for _, who := range m.GetSigners() {
-			for _, d := range []string{"uasset1", "uasset2", "uasset3", "uasset4"} {
+		for _, who := range signers {
+			for _, d := range []string{"uasset1", "uasset2", "uasset3", "uasset4", "ucmdx"} {
 				fund(t, a, c, who, sdk.NewCoins(sdk.NewCoin(d, sdk.NewInt(1000000000000))))
 			}
 		}
 	}
-	// 1. the same message, as simulation / CheckTx run it: on a branch that is dropped
+	// 1. the same action, as simulation / CheckTx run it: on a branch that is dropped
 	c1, _ := ctx.CacheContext()
 	rich(c1)
-	safely(func() { _, _ = h(c1, m) })
+	safely(func() { do(c1) })
 	// 2. a branch on which the parameters, prices and switches of the modules are changed, a later
 	// block runs, and the message runs again; dropped as well
 	c2, _ := ctx.CacheContext()
@@ -201,7 +207,7 @@ func c16DryRun(t *testing.T, a *chain.App, ctx sdk.Context, e *c15Env, m sdk.Msg
 	})
 	c2 = c2.WithBlockHeight(ctx.BlockHeight() + 1000).WithBlockTime(ctx.BlockTime().Add(49 * time.Hour))
 	safely(func() { c16Block(a, c2, true) })
-	safely(func() { _, _ = h(c2, m) })
+	safely(func() { do(c2) })
 	safely(func() { c16Block(a, c2, false) })
 }
 
@@ -247,6 +253,9 @@ func c16Replay(t *testing.T, tr *tracer, label string, blocks int) {
 		"cmdx", "osmo", "lendV2", "esmV1", "tokenmint"} {
 		accts = append(accts, modAddr(m))
 	}
+	// one app gets its own parameters in every module (governance proposals, contract bindings)
+	g := c16Govern(t, a, ctx, e)
+	accts = append(accts, liquiditytypes.DeriveFeeCollectorAddress(e.appSwap), liquiditytypes.DeriveFeeCollectorAddress(g.govx))
 	dump := func(block int, classes []string) {
 		tr.p("case %d", block)
 		for i, c := range classes {
@@ -256,6 +265,10 @@ func c16Replay(t *testing.T, tr *tracer, label string, blocks int) {
 			tr.p("d %s %s", s, c16StoreDigest(a, ctx, s))
 		}
 		tr.p("d bank %s", c16BankDigest(a, ctx, accts))
+		// what the node answers to parameter queries after the block; the app with its own parameters is
+		// the last one whose parameters this process decodes before the next block (or the next replay)
+		qh := sha256.Sum256([]byte(g.queries(a, ctx, e)))
+		tr.p("d queries %s", hex.EncodeToString(qh[:]))
 	}
 	dump(0, e.log)
 	ndry := 0
@@ -264,7 +277,12 @@ func c16Replay(t *testing.T, tr *tracer, label string, blocks int) {
 			ndry++
 			c16DryRun(t, a, ctx, e, m, ndry)
 		}
-		return e.msg(t, a, ctx, false, m)
+		class, err, _ := execMsg(a, ctx, m)
+		e.log = append(e.log, class)
+		if class != "ok" && os.Getenv("VERIF_C16_DEBUG") == "1" {
+			fmt.Fprintf(os.Stderr, "c16 block %d %T: %s %v\n", ctx.BlockHeight()-1, m, class, err)
+		}
+		return class
 	}
 	prices := []string{"0.99", "1.00", "1.00", "1.01", "1.01", "1.02", "0.98"}
 	for b := 1; b <= blocks; b++ {
@@ -274,10 +292,32 @@ func c16Replay(t *testing.T, tr *tracer, label string, blocks int) {
 		}
 		c16Block(a, ctx, true)
 		var classes []string
+		if b == (blocks+2)/3 {
+			// governance and the contracts re-parametrise the running apps
+			classes = append(classes, g.reparam(a, ctx, e)...)
+		}
+		newApp := false
 		ntx := 6 + r.intn(10)
 		for i := 0; i < ntx; i++ {
 			who := users[r.intn(len(users))]
-			switch r.intn(10) {
+			kind := r.intn(12)
+			if kind == 11 && (newApp || g.nNew >= 4+blocks/4) {
+				kind = 10 // at most one new app per block
+			}
+			switch kind {
+			case 10: // an order in the pair of the app with its own parameters
+				buy, amt := r.chance(50), int64(200000+r.intn(20)*50000)
+				fund(t, a, ctx, who, sdk.NewCoins(sdk.NewCoin("uasset1", sdk.NewInt(amt*3)), sdk.NewCoin("uasset4", sdk.NewInt(amt*3))))
+				classes = append(classes, exec(g.orderMsg(who, buy, amt)))
+			case 11: // a new app that takes the default parameters
+				newApp = true
+				g.nNew++
+				do := g.newDefaultApp(t, a, e, who, g.nNew)
+				if dry {
+					ndry++
+					c16DryRunDo(t, a, ctx, e, []sdk.AccAddress{who}, func(c sdk.Context) { do(c) }, ndry)
+				}
+				classes = append(classes, do(ctx)...)
 			case 0, 1, 2, 3, 4, 5: // limit orders, many at equal prices
 				buy, price, amt := r.chance(50), prices[r.intn(len(prices))], int64(100000+r.intn(40)*50000)
 				if dry {
